@@ -47,6 +47,16 @@ struct r06_9_state {
     void remember_wide(uint64_t v) { wide = v; }
 };
 
+// derived members (cdnsverif/derived.py): m_twice is always m_src * 2; stale() changes m_src after computing it
+struct derived_cache {
+    int m_src;
+    int m_twice;
+    explicit derived_cache(int s) : m_src(s), m_twice(s * 2) {}
+    void set(int s) { m_src = s; m_twice = m_src * 2; }
+    void stale(int s) { m_twice = m_src * 2; m_src = s; }
+    int twice() const { return m_twice; }
+};
+
 // R05.5 window-derived state: a memo keyed by a position in the buffer window that survives the refill of that window
 struct r05_5_decoder {
     unsigned char m_buffer[8];
